@@ -23,12 +23,13 @@ CASE_TIMEOUT = {"quick": 120, "thorough": 120}
 
 def plan(tier, seed):
     n = 3840 if tier == "quick" else 64000
-    return [{"gen": ENTRY[i % len(ENTRY)], "idx": i, "seed": seed} for i in range(n)]
+    every = 48 if tier == "quick" else 16   # cases whose second call runs in a fresh interpreter (hidden module state)
+    return [dict({"gen": ENTRY[i % len(ENTRY)], "idx": i, "seed": seed}, **({"fresh": True} if (i // len(ENTRY)) % every == 0 else {})) for i in range(n)]
 
 
 def floors(tier):
     f = {"checked/%s" % e: 30 for e in ENTRY}
-    f.update({"clause/same-int-seed": 1500, "clause/global-state-untouched": 1500, "clause/same-randomstate": 1200, "clause/seed-free-repeat": 100,
+    f.update({"clause/fresh-process": 50, "clause/same-int-seed": 1500, "clause/global-state-untouched": 1500, "clause/same-randomstate": 1200, "clause/seed-free-repeat": 100,
               "seed_sensitive": 1000})
     return f
 
@@ -268,6 +269,17 @@ def _run_case(case, ctx):
         if not same_state(st0, st1):
             ctx.violation("C16:%s:global-state-touched:%s" % (entry, desc["which"]), "a seed-free deterministic function advanced the global NumPy generator", desc)
         return
+    if case.get("fresh"):
+        import hashlib, json as _json, os, subprocess, sys
+        env = dict(os.environ, PYTHONWARNINGS="ignore")
+        p = subprocess.run([sys.executable, "-c", "from tlv.props import c16; c16.child_main()"], input=_json.dumps({"case": case, "seed_used": seed}),
+                           capture_output=True, text=True, env=env, timeout=300)
+        ctx.count("clause/fresh-process")
+        mine = hashlib.sha256(repr(out1).encode()).hexdigest()
+        theirs = p.stdout.strip().splitlines()[-1] if p.stdout.strip() else "child failed: " + p.stderr[-200:]
+        if mine != theirs:
+            ctx.violation("C16:%s:fresh-process:any" % entry, "a fresh interpreter called with random_state=%d returns a different result (%s vs %s)" % (seed, mine[:12], theirs[:40]), desc)
+            return
     ctx.count("clause/same-int-seed")
     if out1 != out2:
         ctx.violation("C16:%s:same-int-seed:any" % entry, "two calls with random_state=%d returned different results after the global generator was reseeded" % seed, desc)
@@ -294,3 +306,17 @@ def _run_case(case, ctx):
             ctx.count("seed_insensitive/%s" % entry)
     except np.linalg.LinAlgError:
         pass
+
+
+def child_main():
+    """second call of a seeded entry point in a fresh interpreter: prints the digest of its output"""
+    import hashlib, json, os, sys, warnings
+    warnings.simplefilter("ignore")
+    sys.path.insert(0, os.environ.get("VERIF_REPO", "/repo"))
+    req = json.load(sys.stdin)
+    case = req["case"]
+    rs = gen.rng(case["seed"], case["idx"], case["gen"])
+    f, _desc = build(case["gen"], rs)
+    np.random.seed(12345)
+    np.random.standard_normal(7)
+    print(hashlib.sha256(repr(flat_bytes(f(req["seed_used"]))).encode()).hexdigest())
